@@ -59,6 +59,9 @@ SYN_GROUPS = [
 ]
 
 
+_HELD = {}      # codon objects obtained at the start of the process, compared with what the constructor hands out at the end
+
+
 def shards(tier, seed):
     return [{"i": 0, "n": 1}]
 
@@ -120,6 +123,15 @@ def cases(spec, ctx):
             for c in ("PLUS", "MINUS", "UNSTRANDED"):
                 yield {"kind": "strand3", "a": a, "b": b, "c": c}
     yield {"kind": "biotype"}
+    for alpha in ("NT_STRICT", "NT_EXTENDED", "NT_STRICT_GAPPED", "NT_EXTENDED_GAPPED", "NT_STRICT_UNKNOWN"):
+        for n in (4095, 4096, 16383, 16384, 16385, 20000, 65537, (1 << 17) + 3):
+            yield {"kind": "alphabet-long", "alphabet": alpha, "n": n}
+    # the tables once more, after the complete domain and a series of refused strings went through the constructor
+    yield {"kind": "codon-history"}
+    for tt in ("DEFAULT", "STANDARD", "PROKARYOTE"):
+        for c in itertools.product("ACGT", repeat=3):
+            yield {"kind": "via-cds", "first": "".join(c), "table": tt}
+    yield {"kind": "codon-sets"}
 
 
 def run_case(case, ctx):
@@ -139,6 +151,7 @@ def run_case(case, ctx):
         c = case["codon"]
         ctx.note(("strict", c), klass="strict-codon")
         cod = Codon(c)
+        _HELD.setdefault(c, cod)
         ctx.check("codon.strict-translation", cod.translate() == fwd[c] and cod.translate(strict=False) == fwd[c],
                   key="strict", codon=c, got=cod.translate(), want=fwd[c])
         want = {x for x, aa in fwd.items() if aa == fwd[c]}
@@ -229,6 +242,73 @@ def run_case(case, ctx):
                 ctx.check("alphabet.complement-iupac", got == want, key=("comp2", alpha.name), pair=a + b.lower(), got=got, want=want)
         return
 
+    if k == "alphabet-long":
+        # the same table, letter by letter, inside sequences of contig size (both cases of every letter at every length)
+        alpha = Alphabet[case["alphabet"]]
+        n = case["n"]
+        motif = alpha.value + alpha.value.lower()
+        rot = n % len(motif)
+        data = ((motif[rot:] + motif[:rot]) * (n // len(motif) + 1))[:n]
+        ctx.note(("alpha-long", alpha.name, n), klass="alphabet-long-sequence")
+        want = "".join((comp[ch.upper()].lower() if ch.islower() else comp[ch]) for ch in reversed(data))
+        rc, e = ctx.call(lambda: Sequence(data, alpha).reverse_complement())
+        got = None if e is not None else str(rc)
+        bad = None if got == want or got is None else next((j for j in range(min(len(got), n)) if got[j] != want[j]), min(len(got), n))
+        ctx.check("alphabet.complement-iupac", got == want, key=("comp-long", alpha.name), n=n, exc=repr(e)[:150] if e else None, first_bad_offset=bad,
+                  got=None if bad is None else got[bad:bad + 1], want=None if bad is None else want[bad:bad + 1])
+        if got is not None:
+            back = str(rc.reverse_complement())
+            same = len(back) == n and all(x == y or (x.upper(), y.upper()) == ("T", "U") and x.islower() == y.islower() for x, y in zip(back, data))
+            ctx.check("alphabet.complement-involution", same, key=("invol-long", alpha.name), n=n)
+            # a foreign character somewhere inside is refused whatever the length
+            foreign = data[: n // 2] + "!" + data[n // 2 + 1:]
+            _, e2 = ctx.call(lambda: Sequence(foreign, alpha, validate_alphabet=False).reverse_complement())
+            ctx.check("alphabet.non-nucleotide-refused", isinstance(e2, AlphabetError), key=("foreign-long", alpha.name), n=n, exc=repr(e2)[:120])
+        return
+
+    if k == "via-cds":
+        # the same table read through a coding interval: a first codon followed by each of the 64 codons once (so the first codon occurs again
+        # in the body); an alternative initiator of the named table reads M in the first position only
+        from inscripta.biocantor.gene.cds import CDSInterval
+        from inscripta.biocantor.location.location_impl import SingleInterval
+        from inscripta.biocantor.parent.parent import SequenceType
+
+        first, tt = case["first"], TranslationTable[case["table"]]
+        ctx.note(("via-cds", first, tt.name), klass="codon-via-cds")
+        starts = {"DEFAULT": {"ATG"}, "STANDARD": set(t1.start_codons), "PROKARYOTE": set(t11.start_codons)}[tt.name]
+        allc = sorted(fwd)
+        dna = first + "".join(allc)
+        seq = Sequence(dna, Alphabet.NT_STRICT, type=SequenceType.CHROMOSOME)
+        cds = CDSInterval.from_location(SingleInterval(0, len(dna), Strand.PLUS, parent=seq), cds_frames=[CDSFrame.ZERO])
+        want = ("M" if first in starts else fwd[first]) + "".join(fwd[c] for c in allc)
+        got, e = ctx.call(lambda: str(cds.translate(translation_table=tt)))
+        bad = None if got == want or got is None else next((j for j in range(min(len(got), len(want))) if got[j] != want[j]), -1)
+        ctx.check("codon.strict-translation", got == want, key=("via-cds", tt.name, "first-codon" if bad == 0 else "body"), first=first, table=tt.name,
+                  exc=repr(e)[:150] if e else None, codon_index=bad, codon=None if bad in (None, -1) else ([first] + allc)[bad],
+                  got=None if bad in (None, -1) else got[bad], want=None if bad in (None, -1) else want[bad])
+        return
+
+    if k == "codon-history":
+        ctx.note(("codon-history",), klass="codon-history")
+        junk = ["AT-", "-TG", "A-G", "---", "ATGA", "AT", "AXG", "A G", "ATG\n", "", "A.G", "ATGATG", "NN", "at-", "xyz", "123"]
+        junk += [a + b + "-" for a in "ACGT" for b in "ACGT"] + ["!" + a + b for a in "ACGT" for b in "ACGT"]
+        for j in junk:
+            r, e = ctx.call(Codon, j)
+            ctx.check("codon.invalid-refused", isinstance(e, ValueError), key="bad-codon-late", codon=j, got=repr(r))
+        for c, held in sorted(_HELD.items()):
+            now = Codon(c)
+            ok = now is held and now == held and hash(now) == hash(held) and now in {held} and str(now) == c
+            ctx.check("codon.identity-stable", ok, key="same-object-after-history", codon=c, same_object=now is held, equal=now == held)
+            syn_now = now.synonymous_codons(include_self=True)
+            want = {x for x, aa in fwd.items() if aa == fwd[c]}
+            ctx.check("codon.synonymous-partition", {str(x) for x in syn_now} == want and all(x is _HELD.get(str(x), x) for x in syn_now)
+                      and held.translate() == fwd[c] == now.translate(), key="syn-after-history", codon=c, got=[str(x) for x in syn_now])
+            for tt, w in ((TranslationTable.DEFAULT, {"ATG"}), (TranslationTable.STANDARD, set(t1.start_codons)), (TranslationTable.PROKARYOTE, set(t11.start_codons))):
+                g1, g2 = now.is_start_codon_in_specific_translation_table(tt), held.is_start_codon_in_specific_translation_table(tt)
+                ctx.check("codon.start-sets", g1 == g2 == (c in w), key=("starts-after-history", tt.name), codon=c, now=g1, held=g2, want=c in w)
+            ctx.check("codon.stop-set", now.is_stop_codon == held.is_stop_codon == (fwd[c] == "*"), key="stop-after-history", codon=c)
+        return
+
     if k == "alphabet-refuse":
         alpha = Alphabet[case["alphabet"]]
         ctx.note(("alpha-refuse", alpha.name), klass="alphabet-refuse")
@@ -263,6 +343,13 @@ def run_case(case, ctx):
         p = f.to_phase()
         ok = p is CDSPhase[want] and p.to_frame() is f and CDSPhase[f.name].to_frame().to_phase() is CDSPhase[f.name]
         ok = ok and CDSFrame.from_int(f.value) is f and CDSPhase.from_int(p.value) is p
+        import numpy as np
+
+        # integer codes taken out of a numpy array (signed 64 bit)
+        ok_np = CDSFrame.from_int(np.int64(f.value)) is f and CDSPhase.from_int(np.int64(p.value)) is p
+        ctx.check("frame.phase-roundtrip", ok_np, key="int64-code", frame=f.name)
+        if f is not CDSFrame.NONE:
+            ctx.check("frame.shift-modular", all(f.shift(np.int64(n)) is f.shift(n) for n in range(-30, 31)), key="int64-shift", frame=f.name)
         ok = ok and p.to_gff() == ("." if p is CDSPhase.NONE else str(p.value))
         if f is not CDSFrame.NONE:
             # phase = number of bases to skip to reach the next codon start = (3 - frame) % 3
@@ -283,6 +370,9 @@ def run_case(case, ctx):
         val = {"PLUS": 1, "MINUS": -1, "UNSTRANDED": 0}[a.name]
         ok = a.to_symbol() == sym and str(a) == sym and Strand.from_symbol(sym) is a and Strand.from_int(val) is a and a.value == val
         ctx.check("strand.symbol-int-roundtrip", ok, key="sym", a=a.name)
+        import numpy as np
+
+        ctx.check("strand.symbol-int-roundtrip", ctx.call(Strand.from_int, np.int64(val))[0] is a, key="int64-code", a=a.name)
         for bad in ("", "x", "++", "1"):
             _, e = ctx.call(Strand.from_symbol, bad)
             ctx.check("strand.symbol-int-roundtrip", isinstance(e, ValueError), key="bad-sym", value=bad)
